@@ -105,10 +105,10 @@ PROPS["C01"] = {
     "gen": ["Pyramid", "WalkWorker"],
     "trusted_base": ["the multiprocessing model of DESIGN.md §3 (as for C03); queue FIFO order is abstracted away in the proof model (a receive may take any item in the pipe), which over-approximates the real behaviours",
                      "a tile filter is a deterministic function of the tile's position",
-                     "liveness is proved in the form `from every reachable state some continuation returns` (C01Live.par_walk_progress, C01LiveRed.par_walk_live_*): no deadlock and no state from which termination has become impossible; that the operating system's scheduler is fair (so that the continuation is the one that happens) is assumed, and hangs of the real code are detected by the simulator's watchdog"],
+                     "liveness is proved in the form `from every reachable state some continuation returns` (C01Live.par_walk_progress, C01LiveRed.par_walk_live_*): no deadlock and no state from which termination has become impossible; and (C01Bound.effective_steps_bounded / only_polling_can_repeat) at most 8·|ops|+4·n+11 transitions of ANY execution lie outside the dispatcher's and the workers' polling loops, so an execution can only be infinite by polling for ever; that the operating system's scheduler is fair (so that the continuation is the one that happens) is assumed, and hangs of the real code are detected by the simulator's watchdog"],
     "assumptions": COMMON_ASSUME + ["callbacks do not raise (C19)"],
     "partial": "the reducer / prologue refinement is proved for generic (sub-)pyramids, whole TOAST pyramids and TOAST sub-pyramids with an accepted ancestor line and a leaf (Props/Reducer, Props/C01Red); the degenerate nothing-to-do configurations are covered by differential execution only; scheduler fairness is an assumption of the liveness reading",
-    "props_files": ["C01", "Reducer", "C01Red", "C01Live", "C01LiveRed"],
+    "props_files": ["C01", "Reducer", "C01Red", "C01Live", "C01LiveRed", "C01Bound"],
 }
 
 PROPS["C19"] = {
